@@ -148,7 +148,8 @@ CLAIMED['C06'] = dict(
          'when an unlock makes the qrwlock free, a queued writer (exactly one) or, with no writer queued, ALL queued readers are resumed '
          '(try_wake lowered, notifications under the spinlock); both instantiations of do_lock, and lock(mode) pairs the exclusive try with cv_unique '
          'and the shared try with cv_shared.  '
-         'Lemma: the allowed transitions preserve writers-exclusive / readers-shared.',
+         'Lemma: the allowed transitions preserve writers-exclusive / readers-shared.  A native campaign runs random single-vCPU histories on the real '
+         'rwlock and qrwlock (exclusion, failed locks leave no trace, nobody left blocked).',
     note=TRUST + ' NOT decided: admission after the last unlock as a liveness property, timeouts racing with admission across context '
          'switches, memory ordering (sequentially consistent model), the shared instantiation of do_lock; the rely (other threads perform only '
          'allowed transitions) is justified by the same step contracts for every writer (closed world); invariant-per-step => all interleavings '
@@ -171,7 +172,8 @@ CLAIMED['C07'] = dict(
          'RingChannel / FlexRingChannel recv and send, SendBackoff::push_backoff / notify_senders (the Dekker-style handshake as step contracts): a '
          'consumer parks on the semaphore only while registered in `idler` and after a pop that failed since it registered / last woke, mirrors '
          'taken tokens on `pending`, unregisters on every path; a producer leaves without signalling only if it saw no idle consumer or as many '
-         'tokens in flight as the latest idler count it read, and signals at most once after reserving the token.',
+         'tokens in flight as the latest idler count it read, and signals at most once after reserving the token.  A native program drives the real '
+         'SPSC / batch-MPMC / MPMC queues from one thread against a deque model with the counters started at 0 and just below 2^64.',
     note=TRUST + ' NOT decided: FIFO per producer and exactly-once delivery as whole-history properties, send/recv pause loops, the '
          'end-to-end liveness of the RingChannel notification (it needs the fence/seq_cst ordering and the scheduler: memory-model and schedule facts); sequentially consistent atomics; rely: tail/head only '
          'grow and a slot is written by another thread only between its own claim and publication.',
@@ -190,7 +192,8 @@ CLAIMED['C01'] = dict(
          'clears its own flag only before linking behind the predecessor and returns only after observing the hand-over, unlock does exactly one of '
          'handing the lock to its linked successor or resetting the tail when nobody is queued.  The hand-off relies on the scheduler kernels proved '
          'under C04 and re-run here: thread_interrupt never replaces the reason parked for a woken waiter, prelocked_thread_interrupt wakes the '
-         'locked head exactly once.',
+         'locked head exactly once.  A native campaign runs random single-vCPU histories (lock / timed lock / try_lock / interrupt / unlock) on the real '
+         'mutex (3 modes) and recursive_mutex: one owner, failed locks hold nothing, nobody left blocked.',
     note=TRUST + ' NOT decided: mutual exclusion across sleeping waiters as a whole-history property, timeouts/interrupts racing with the '
          'hand-off (the -1 paths may coincide with a hand-off), standby-queue wake-ups; sequentially consistent atomics; the rely on '
          'other threads is justified by the same contracts (closed world); invariant-per-step => all interleavings is a paper argument.',
@@ -203,7 +206,8 @@ CLAIMED['C03'] = dict(
          'the notification reason, -1/ETIMEDOUT when the sleep ran to its deadline, and -1 with the sleeper\'s errno (not the re-lock\'s) '
          'otherwise; wait without a lock is refused.  notify_one wakes exactly one queued waiter (none only if there was none) and notify_all '
          'wakes every queued waiter and reports their number.  (prepare_usleep, which queues the waiter under the queue lock and thread.lock, '
-         'is proved under C04.)',
+         'is proved under C04.)  A native campaign runs random single-vCPU histories of wait / notify_one / notify_all / interrupt (also with the '
+         'notifier holding the mutex while deadlines pass) on the real condition_variable: returns with the lock, notifications neither lost nor invented.',
     note=TRUST + ' NOT decided: atomic release-and-wait (it is the deferred unlock executed on the next thread\'s stack: assembly + scheduler), '
          '"wakes exactly one thread that was waiting at that moment" across vCPUs, timeouts racing with notifications.',
     technique='deductive verification: Hoare loop rule + stubs with stated contracts, CBMC on mechanically lowered real code',
